@@ -27,6 +27,13 @@
 (*  V  one path item carrying ALL eight OpenAPI 3 verbs (get, put, post,   *)
 (*     delete, options, head, patch, trace) x tag lists x id shapes x      *)
 (*     strategies                                                          *)
+(*  X  unusual-but-valid PARTS of an operation, one decoration each (pairs  *)
+(*     in thorough): responses keyed `default` only / `4XX` `5XX` / `4xx`  *)
+(*     / `2XX` / several statuses / 204 / description only / by $ref to    *)
+(*     components.responses / 200 + default; parameters by $ref;           *)
+(*     requestBody by $ref; path-level parameters + summary + description  *)
+(*     + servers next to the methods; x- extensions + deprecated +         *)
+(*     externalDocs; operation-level servers / security / empty lists      *)
 (* kinds also: mixed = 200 JSON + 206 application/octet-stream (the        *)
 (* primary response is not streaming: client, Protocol and mock are        *)
 (* coroutines); every `multi` operation has its OWN json body model.       *)
@@ -98,7 +105,7 @@ MkDoc(id, sp, tsel, ksel, s, g, r) ==
    ops |-> [j \in 1..Len(tsel) |->
              LET m == Slots[sp][j][1]  p == Slots[sp][j][2] IN
              [oid |-> j, method |-> m, path |-> Paths[p], tags |-> TL[tsel[j]], keys |-> KeysOf(TL[tsel[j]]),
-              opid |-> OpId(IdShapes[s], j, m, p), idshape |-> IdShapes[s], kind |-> KindFor(m, ksel[j])]]]
+              opid |-> OpId(IdShapes[s], j, m, p), idshape |-> IdShapes[s], kind |-> KindFor(m, ksel[j]), decos |-> <<>>]]]
 
 Rot(x, n) == (x % n) + 1
 
@@ -173,9 +180,28 @@ DocV(u) ==
   LET t == u[1]  s == u[2]  g == u[3] IN
   MkDoc("v" \o S(t) \o "x" \o S(s) \o "x" \o S(g), 4, [j \in 1..8 |-> t], [j \in 1..8 |-> IF (j + t) % 4 = 0 THEN 6 ELSE 1], s, g, Rend(t + s + g))
 
+\* unusual-but-valid PARTS of an operation ("none silently dropped" quantifies over all operations, not only over the
+\* plain ones): each decoration is one construct the concretiser adds to the operation (harness/surfacepipe.DECORATIONS)
+Decos == <<"resp_default_only", "resp_wild_upper", "resp_wild_lower", "resp_2XX_primary", "resp_multi_status", "resp_no_content",
+           "resp_desc_only", "resp_ref", "resp_default_plus", "param_ref", "body_ref", "pathlevel_keys", "ext_deprecated", "op_misc">>
+ND == Len(Decos)
+Decorate(doc, which, ds) == [doc EXCEPT !.ops = [j \in DOMAIN @ |-> IF j \in which THEN [@[j] EXCEPT !.decos = ds] ELSE @[j]]]
+\* w = 1: the decoration on operation 2 only (POST / PUT); w = 2: on all three operations
+IdxX(ws, gs) == {I("x", <<d, t, w, g>>) : d \in 1..ND, t \in {1, 2, 4}, w \in ws, g \in gs}
+DocX(u) ==
+  LET d == u[1]  t == u[2]  w == u[3]  g == IF u[4] = 0 THEN Rot(d + t + w, 3) ELSE u[4] IN
+  Decorate(MkDoc("x" \o S(d) \o "x" \o S(t) \o "x" \o S(w) \o "x" \o S(u[4]), IF d % 2 = 1 THEN 1 ELSE 3, <<t, t, t>>, <<1, 1, 1>>, Rot(d + t, 2), g, Rend(d + t + w)),
+           IF w = 1 THEN {2} ELSE {1, 2, 3}, <<Decos[d]>>)
+\* two decorations on one operation
+IdxX2 == {I("z", <<v[1], v[2], t>>) : v \in {v \in (1..ND) \X (1..ND) : v[1] < v[2]}, t \in {2, 4}}
+DocX2(u) ==
+  LET d1 == u[1]  d2 == u[2]  t == u[3] IN
+  Decorate(MkDoc("z" \o S(d1) \o "x" \o S(d2) \o "x" \o S(t), IF (d1 + d2) % 2 = 1 THEN 1 ELSE 3, <<t, t, t>>, <<1, 1, 1>>, Rot(d1 + t, 2), Rot(d1 + d2 + t, 3), Rend(d1 + d2 + t)),
+           {2}, <<Decos[d1], Decos[d2]>>)
+
 Plain(i) ==
   CASE i.f = "a" -> DocA(i.x) [] i.f = "b" -> DocB(i.x) [] i.f = "c" -> DocC(i.x) [] i.f = "d" -> DocD(i.x)
-    [] i.f = "e" -> DocE(i.x) [] i.f = "f" -> DocF2(i.x) [] i.f = "g" -> DocF3(i.x) [] i.f = "h" -> DocH(i.x) [] i.f = "p" -> DocP(i.x) [] i.f = "v" -> DocV(i.x)
+    [] i.f = "e" -> DocE(i.x) [] i.f = "f" -> DocF2(i.x) [] i.f = "g" -> DocF3(i.x) [] i.f = "h" -> DocH(i.x) [] i.f = "p" -> DocP(i.x) [] i.f = "v" -> DocV(i.x) [] i.f = "x" -> DocX(i.x) [] i.f = "z" -> DocX2(i.x)
 Doc(i) == IF i.bare THEN [Plain(i) EXCEPT !.rendering = "yamlbare", !.id = "y" \o @] ELSE Plain(i)
 
 \* yamlbare: a slice of A and B rendered with unquoted status keys
@@ -184,8 +210,8 @@ IdxG(full) ==
   \cup {[i EXCEPT !.bare = TRUE] : i \in {i \in IdxB(1) : i.x[1] # i.x[2] /\ (i.x[1] + 3 * i.x[2]) % (IF full THEN 3 ELSE 16) = 0}}
 
 Family ==
-  CASE Tier = "quick"    -> IdxA(FALSE) \cup IdxB(1) \cup IdxC(32, 1) \cup IdxD(2, 1) \cup IdxE({1}) \cup IdxF2({1, 3}) \cup IdxG(FALSE) \cup IdxH({3}, {1}) \cup IdxP(4) \cup IdxV({1, 2, 4}, {1, 2, 5})
-    [] Tier = "thorough" -> IdxA(TRUE) \cup IdxB(6) \cup IdxC(2, 4) \cup IdxD(1, 12) \cup IdxE(1..NS) \cup IdxF2(1..NS) \cup IdxF3 \cup IdxG(TRUE) \cup IdxH({3, 4}, {1, 2}) \cup IdxP(1) \cup IdxV({1, 2, 4, 6, 12, 16, 17}, {1, 2, 5, 6})
+  CASE Tier = "quick"    -> IdxA(FALSE) \cup IdxB(1) \cup IdxC(32, 1) \cup IdxD(2, 1) \cup IdxE({1}) \cup IdxF2({1, 3}) \cup IdxG(FALSE) \cup IdxH({3}, {1}) \cup IdxP(4) \cup IdxV({1, 2, 4}, {1, 2, 5}) \cup IdxX({1, 2}, {0})
+    [] Tier = "thorough" -> IdxA(TRUE) \cup IdxB(6) \cup IdxC(2, 4) \cup IdxD(1, 12) \cup IdxE(1..NS) \cup IdxF2(1..NS) \cup IdxF3 \cup IdxG(TRUE) \cup IdxH({3, 4}, {1, 2}) \cup IdxP(1) \cup IdxV({1, 2, 4, 6, 12, 16, 17}, {1, 2, 5, 6}) \cup IdxX({1, 2}, {1, 2, 3}) \cup IdxX2
 
 Init == sc \in Family /\ done = FALSE
 Emit == ~done /\ done' = TRUE /\ UNCHANGED sc /\ PrintT("SCEN " \o ToJson(Doc(sc)))
